@@ -507,6 +507,10 @@ pub fn gen_invocation(t: &mut Tape<'_>, spec: &CmdSpec, io: &InvOpts) -> Invocat
                 });
             }
         }
+        if !io.long_runs && free.len() > io.max_occ {
+            // (never cut positional occurrences: required ones must stay)
+            free.truncate(io.max_occ);
+        }
         // ---- positionals
         let pos: Vec<&ArgSpec> = level.args.iter().filter(|a| a.is_positional()).collect();
         let nreq = pos.iter().filter(|p| p.required && !p.last).count();
@@ -636,9 +640,7 @@ pub fn gen_invocation(t: &mut Tape<'_>, spec: &CmdSpec, io: &InvOpts) -> Invocat
             merged.push(Occ::Escape);
             merged.extend(after);
         }
-        if merged.len() > io.max_occ + 4 && !io.long_runs {
-            merged.truncate(io.max_occ + 4);
-        }
+
         li.occs = merged;
         // ---- descend?
         let trailing = li.occs.iter().any(|o| matches!(o, Occ::Escape));
@@ -811,6 +813,14 @@ pub fn spell(t: &mut Tape<'_>, spec: &CmdSpec, inv: &Invocation, stats: &mut Spe
                     forms.push(3);
                 }
             }
+            if !stats.no_flag_subcommand_forms {
+                if !sc.long_flag_aliases.is_empty() {
+                    forms.push(6);
+                }
+                if !sc.short_flag_aliases.is_empty() {
+                    forms.push(7);
+                }
+            }
             if sc.short_flag.is_some() && !stats.no_flag_subcommand_forms {
                 forms.push(4);
                 if first_is_short_flag {
@@ -848,6 +858,16 @@ pub fn spell(t: &mut Tape<'_>, spec: &CmdSpec, inv: &Invocation, stats: &mut Spe
                 4 => {
                     stats.flag_subcommand = true;
                     argv.push(format!("-{}", sc.short_flag.unwrap()).into_bytes())
+                }
+                6 => {
+                    stats.flag_subcommand = true;
+                    stats.alias = true;
+                    argv.push(format!("--{}", t.pick(&sc.long_flag_aliases).0).into_bytes())
+                }
+                7 => {
+                    stats.flag_subcommand = true;
+                    stats.alias = true;
+                    argv.push(format!("-{}", t.pick(&sc.short_flag_aliases).0).into_bytes())
                 }
                 _ => {
                     // `-Sab`: the letter opens the sub level's first cluster
@@ -1408,6 +1428,17 @@ pub fn expect_seq(spec: &CmdSpec, inv: &Invocation, cluster_entry: &[bool]) -> O
 
 /// Compare the explicit (command-line) part of an observation with the expectation.
 pub fn compare_explicit(spec: &CmdSpec, exp: &[ExpLevel], obs: &LevelObs, check_indices: bool) -> Result<(), (String, String)> {
+    compare_explicit_opts(spec, exp, obs, check_indices, false)
+}
+
+/// `skip_globals`: global arguments are judged separately (their values travel between levels).
+pub fn compare_explicit_opts(
+    spec: &CmdSpec,
+    exp: &[ExpLevel],
+    obs: &LevelObs,
+    check_indices: bool,
+    skip_globals: bool,
+) -> Result<(), (String, String)> {
     let mut level_spec = spec;
     let mut o = obs;
     for (li, el) in exp.iter().enumerate() {
@@ -1415,7 +1446,7 @@ pub fn compare_explicit(spec: &CmdSpec, exp: &[ExpLevel], obs: &LevelObs, check_
             .args
             .iter()
             .filter(|a| a.source == Some(Source::CommandLine))
-            .filter(|a| level_spec.args.iter().any(|s| s.id == a.id))
+            .filter(|a| level_spec.args.iter().any(|s| s.id == a.id && !(skip_globals && s.global)))
             .collect();
         for a in &explicit {
             if !el.args.contains_key(&a.id) {
@@ -1426,6 +1457,9 @@ pub fn compare_explicit(spec: &CmdSpec, exp: &[ExpLevel], obs: &LevelObs, check_
             }
         }
         for (id, e) in &el.args {
+            if skip_globals && level_spec.arg(id).map(|a| a.global).unwrap_or(true) {
+                continue;
+            }
             let Some(a) = explicit.iter().find(|a| a.id == *id) else {
                 return Err((
                     "attribution:dropped-argument".into(),
